@@ -117,12 +117,13 @@ func RunC03(r *sim.Run) {
 	specChanges, healthChanges := 0, 0
 	for step := 0; step < nSteps; step++ {
 		pts := w.Sc.Points()
-		weights := []int{10, 0, 4, 0, 5}
+		weights := []int{10, 0, 4, 0, 5, 0}
 		if len(pts) > 0 {
 			weights[1] = 6
 		}
 		if faults {
 			weights[3] = 4
+			weights[5] = 1
 		}
 		switch t.Pick(weights) {
 		case 0: // request
@@ -201,6 +202,67 @@ func RunC03(r *sim.Run) {
 			d := []time.Duration{200 * time.Millisecond, time.Second, 2500 * time.Millisecond, 5 * time.Second, 6 * time.Second, 11 * time.Second}[t.Draw(6)]
 			adv := w.Advance(d)
 			r.Logf("advance %v", adv)
+		case 5: // an endpoint is taken out of service while a probe of it is failing, and put back
+			var cands []*srvSpec
+			for i := range srv {
+				if srv[i].present && !srv[i].disabled {
+					cands = append(cands, srv[i])
+				}
+			}
+			if len(cands) == 0 {
+				break
+			}
+			s := cands[t.Draw(len(cands))]
+			st := w.StubFor(s.ep)
+			st.Health, st.DialMode = "hang", ""
+			healthChanges++
+			r.Fault("health_flap")
+			inFlight := func() bool {
+				for _, h := range w.UpObs() {
+					if h.Kind == "healthz" && h.Endpoint == s.ep && !h.Done {
+						return true
+					}
+				}
+				return false
+			}
+			for g := 0; g < 14 && !inFlight(); g++ {
+				w.Advance(time.Second)
+				w.Boundary()
+			}
+			if !inFlight() {
+				r.Logf("flap %s: no probe in flight", s.ep)
+				break
+			}
+			r.Probe("endpoint_disabled_while_its_probe_hangs")
+			for _, dis := range []bool{true, false} {
+				s.disabled = dis
+				specChanges++
+				if err := w.Apply(build()); err != nil {
+					r.Logf("apply rejected: %v", firstLine(err.Error()))
+				}
+				w.Boundary()
+				if dis {
+					w.Advance(time.Duration(t.Range(1, 7)) * time.Second)
+					w.Boundary()
+				}
+			}
+			r.Logf("flap %s: disabled while its probe hung, enabled again", s.ep)
+			for k := t.Range(1, 4); k > 0; k-- {
+				nReq++
+				id := fmt.Sprintf("q%d", nReq)
+				verb, target := "get", "/api/v1/namespaces/default/pods/p1"
+				if t.Draw(2) == 1 {
+					verb, target = "list", "/api/v1/namespaces/default/pods"
+				}
+				w.SetScript(id, &Script{Status: 200, Body: []byte("ok-" + id)})
+				q := &Req{ID: id, Host: "alpha", Method: "GET", Target: target, Headers: [][2]string{{"Authorization", "Bearer tok"}, {"X-Verb", verb}}}
+				w.Send(q)
+				r.Logf("send %s %s -> done=%v status=%d", id, verb, q.Done, q.Status)
+				w.Boundary()
+			}
+			if t.Draw(2) == 0 {
+				st.Health = ""
+			}
 		}
 		w.Boundary()
 		if len(w.panics) > 0 {
@@ -305,6 +367,38 @@ func RunC03(r *sim.Run) {
 				// that died: same pick, not a new one
 				r.Probe("transport_retry_same_endpoint")
 				continue
+			}
+			// ground truth of "healthy", independent of the gateway's own flag: the
+			// last probe attempt at this endpoint that ended with a verdict (200, 500,
+			// or a hang that lasted until the gateway gave up) before the pick. A
+			// reset attempt is retried by the client and proves nothing by itself.
+			r.Checked("not_forwarded_after_failed_probe")
+			var lastProbe *UpObs
+			for _, h := range w.UpObs() {
+				if h.Kind != "healthz" || h.Endpoint != o.Endpoint || !h.Done || h.DoneAt > o.At {
+					continue
+				}
+				switch h.Outcome {
+				case "200":
+				case "500":
+					if h.DoneAt > o.At-50*time.Millisecond {
+						continue // the gateway may not have the answer yet
+					}
+				case "hang":
+					// a verdict only if it lasted for the probe's whole timeout (5 s)
+					if h.DoneAt-h.At < 4900*time.Millisecond || h.DoneAt > o.At-50*time.Millisecond {
+						continue
+					}
+				default:
+					continue
+				}
+				if lastProbe == nil || h.DoneAt >= lastProbe.DoneAt {
+					lastProbe = h
+				}
+			}
+			if lastProbe != nil && lastProbe.Outcome != "200" {
+				r.Violate("forwarded_after_failed_probe", lastProbe.Outcome, "request %s was forwarded to %s at %v, but the last health probe of that endpoint that got a verdict ended %v earlier with %q and none has succeeded since", o.ID, o.Endpoint, o.At, o.At-lastProbe.DoneAt, lastProbe.Outcome)
+				return
 			}
 			r.Checked("forwarded_to_eligible_endpoint")
 			verb := verbOf(q)
